@@ -7,6 +7,7 @@ class EngineBase:
     source_files = []
     has_sim_clock = False
     sim_time_note = 'the code under test reads no clock on this path; nothing to simulate'
+    fault_note = 'faults are injected by this engine; see fault_kinds_fired'
 
     def __init__(self, prop):
         self.prop = prop
